@@ -184,3 +184,35 @@ func VerifGrokRun() {
 	}
 	verifnd.Assert(len(pt.Tags) == len(tags) && pt.Tags["tg"] == "tv", "tags-unchanged")
 }
+
+// VerifGrokHistory: C15 for grok - loading and running a script does not depend on scripts
+// loaded earlier in the process: two scripts with the identical grok text whose local
+// add_pattern alias differs extract what their own alias says, in either load order.
+func VerifGrokHistory() {
+	digits := "add_pattern(\"_v\", \"[0-9]+\")\ngrok(_, \"%{_v:val}-\")\n"
+	letters := "add_pattern(\"_v\", \"[a-z]+\")\ngrok(_, \"%{_v:val}-\")\n"
+	first := verifnd.Int(0, 1) // which of the two is loaded (and run) first
+	run := func(src, msg string) any {
+		scripts, errs := engine.ParseScript(map[string]string{"s.p": src}, funcs.FuncsMap, funcs.FuncsCheckMap)
+		verifnd.Assert(len(errs) == 0, "script-loads")
+		if len(errs) != 0 {
+			return nil
+		}
+		pt := &input.Point{}
+		input.InitPt(pt, "m", nil, map[string]any{"message": msg}, time.Time{})
+		verifnd.Assert(scripts["s.p"].Run(pt, nil) == nil, "run-ok")
+		return pt.Fields["val"]
+	}
+	const msg = "123-abc-"
+	var d, l any
+	if first == 0 {
+		d = run(digits, msg)
+		l = run(letters, msg)
+	} else {
+		l = run(letters, msg)
+		d = run(digits, msg)
+	}
+	verifnd.Reach("both-ran")
+	verifnd.Assert(d == any("123"), "digits-alias-extracts-digits")
+	verifnd.Assert(l == any("abc"), "letters-alias-extracts-letters")
+}
